@@ -1,8 +1,10 @@
-import AcraModel.Envelope.Detector
+import AcraModel.Envelope.SafeContainer
 /-!
 # C03 — any modification of a protected value is detected, never mis-decrypted
 
-Property theorems only. Models: `AcraModel/Envelope/{AcraBlock,AcraStruct,Container,Detector}.lean`.
+Property theorems only. Models: `AcraModel/Envelope/{AcraBlock,AcraStruct,Container,Detector}.lean`,
+helper lemmas: `AcraModel/Envelope/Safe*.lean`. The "no panic" / bound theorems also serve C14
+(no input can crash a handler or make it loop or allocate without bound).
 -/
 namespace AcraModel.Props.C03
 open AcraModel AcraModel.Envelope Generated
@@ -26,5 +28,87 @@ theorem fact_layout_tags :
     structTag = List.replicate 8 34 ∧ blockTag = List.replicate 4 34 ∧ containerTag = List.replicate 3 37 ∧
     idBlock = 240 ∧ idStruct = 241 ∧ Layout.blockKeyBackends = [0] ∧ Layout.blockDataBackends = [0] ∧
     Layout.blockKeyEncryptionBackendTypeSecureCell = 0 ∧ Layout.blockDataEncryptionBackendTypeSecureCell = 0 := by decide
+
+/-! ## A. no decoder panics, whatever the bytes (no crypto law needed: holds for every `c`) -/
+
+/-- `ExtractAcraBlockFromData` never panics, whatever the input bytes. -/
+theorem extractBlock_no_panic : ∀ d : Bytes, extractBlock d ≠ .panic := extractBlock_ne_panic
+
+/-- `ValidateAcraStructLength` never panics, whatever the input bytes. -/
+theorem validateStruct_no_panic : ∀ d : Bytes, validateStruct d ≠ .panic := validateStruct_ne_panic
+
+/-- `GetDataLengthFromAcraStruct` slices `data[137:145]` unguarded: it panics exactly on inputs shorter
+than the 145-byte header. Every caller checks the length first (see `validateStruct_no_panic`,
+`matchOld_no_panic`, `processStructs_no_panic`). -/
+theorem getDataLength_no_panic : ∀ d : Bytes, structMin ≤ d.length → getDataLength d ≠ .panic := by
+  intro d h; rw [getDataLength_eq d h]; simp
+
+/-- … and it does panic on every shorter input (the guard in the callers is necessary). -/
+theorem getDataLength_panics_when_short : ∀ d : Bytes, d.length < structMin → getDataLength d = .panic :=
+  getDataLength_short
+
+/-- `ExtractAcraStruct` never panics: declared lengths that are negative as `int`, overflow, or exceed
+the buffer are rejected before slicing. -/
+theorem extractStruct_no_panic : ∀ d : Bytes, extractStruct d ≠ .panic := extractStruct_ne_panic
+
+/-- `DecryptAcrastruct` never panics, for every key, context and input and every crypto back end. -/
+theorem decryptStruct_no_panic : ∀ (c : CryptoOps) (priv ctx d : Bytes), decryptStruct c priv ctx d ≠ .panic :=
+  decryptStruct_ne_panic
+
+/-- `DecryptRotatedAcrastruct` never panics, for every list of private keys. -/
+theorem decryptStructRotated_no_panic :
+    ∀ (c : CryptoOps) (ctx d : Bytes) (keys : List Bytes), decryptStructRotated c ctx d keys ≠ .panic :=
+  decryptStructRotated_ne_panic
+
+/-- `validateSerializedContainer` never panics. -/
+theorem validateContainer_no_panic : ∀ d : Bytes, validateContainer d ≠ .panic := validateContainer_ne_panic
+
+/-- `matchOldContainer` never panics (it reads the AcraStruct length only after validation). -/
+theorem matchOld_no_panic : ∀ d : Bytes, matchOld d ≠ .panic := matchOld_ne_panic
+
+/-- `getEnvelopeIDFromData` never panics. -/
+theorem getEnvelopeID_no_panic : ∀ d : Bytes, getEnvelopeID d ≠ .panic := getEnvelopeID_ne_panic
+
+/-- `getSerializedContainerLength` slices `data[3:11]` unguarded: it panics exactly below 11 bytes … -/
+theorem containerInternalLength_no_panic :
+    ∀ d : Bytes, 11 ≤ d.length → containerInternalLength d ≠ .panic := containerInternalLength_ne_panic
+
+theorem containerInternalLength_panics_when_short :
+    ∀ d : Bytes, d.length < 11 → containerInternalLength d = .panic := containerInternalLength_short
+
+/-- … but `DeserializeEncryptedData` only calls it after `validateSerializedContainer` accepted the
+data (more than 12 bytes), so deserialisation never panics. -/
+theorem deserialize_no_panic : ∀ d : Bytes, deserialize d ≠ .panic := deserialize_ne_panic
+
+/-- `ExtractSerializedContainer` never panics. -/
+theorem extractContainer_no_panic : ∀ d : Bytes, extractContainer d ≠ .panic := extractContainer_ne_panic
+
+/-- `AcraBlock.Decrypt` calls through a nil backend when the backend byte is unknown (this mirrors
+Go), but never on a block that `ExtractAcraBlockFromData` accepted: that function checks both
+backend bytes against the registered tables. -/
+theorem decryptBlock_extracted_no_panic (c : CryptoOps) (keys : List Bytes) (ctx d : Bytes) (n : Nat) (b : Bytes) :
+    extractBlock d = .ok (n, b) → decryptBlock c keys ctx b ≠ .panic :=
+  decryptBlock_extracted_ne_panic c keys ctx d n b
+
+/-- The two `ContainerHandler.Decrypt` implementations never panic (the AcraBlock one decrypts only
+what `ExtractAcraBlockFromData` returned). -/
+theorem decryptKind_no_panic : ∀ (c : CryptoOps) (kv : KeyView) (k : Kind) (i : Bytes), decryptKind c kv k i ≠ .panic :=
+  decryptKind_ne_panic
+
+/-- `RegistryHandler.DecryptWithHandler` never panics. -/
+theorem decryptWithHandler_no_panic :
+    ∀ (c : CryptoOps) (kv : KeyView) (k : Kind) (d : Bytes), decryptWithHandler c kv k d ≠ .panic :=
+  decryptWithHandler_ne_panic
+
+/-- **Reveal never brings the handler down**: `RegistryHandler.Process` returns a value or an error
+for every byte string, every key-store answer and every crypto back end. -/
+theorem process_no_panic : ∀ (c : CryptoOps) (kv : KeyView) (d : Bytes), process c kv d ≠ .panic := process_ne_panic
+
+theorem reveal_no_panic : ∀ (c : CryptoOps) (kv : KeyView) (d : Bytes), reveal c kv d ≠ .panic := process_ne_panic
+
+/-- **Protect never brings the handler down** either, whatever bytes it is given (including bytes that
+look like an envelope already). -/
+theorem protect_no_panic :
+    ∀ (c : CryptoOps) (kv : KeyView) (k : Kind) (d rnd : Bytes), protect c kv k d rnd ≠ .panic := protect_ne_panic
 
 end AcraModel.Props.C03
